@@ -87,6 +87,11 @@ type Record struct {
 
 const maxBaselineYields = 300000
 
+// simOpYieldCap cuts off an operation that runs away under simulation only
+// (its baseline stayed below maxBaselineYields); the outcome then differs from
+// the baseline and is reported as a divergence.
+const simOpYieldCap = 20 * maxBaselineYields
+
 // ---- planning ----
 
 type Tier struct {
@@ -267,12 +272,23 @@ type outcome struct {
 
 func runInst(in *Inst) {
 	y0 := vsimrt.Count()
+	if vsimrt.Active() {
+		vsimrt.ArmLimit(simOpYieldCap)
+	} else {
+		vsimrt.ArmLimit(maxBaselineYields + 1)
+	}
 	defer func() {
+		vsimrt.ArmLimit(0)
 		in.yields = vsimrt.Count() - y0
 		in.ran = true
 		if p := recover(); p != nil {
 			if vsimrt.IsAbort(p) {
 				in.aborted = true
+				return
+			}
+			if vsimrt.IsRunaway(p) {
+				in.panicked = true
+				in.panicMsg = "<yield budget exceeded>"
 				return
 			}
 			in.panicked = true
